@@ -25,9 +25,9 @@ structure Pos where
 
 /-- Text up to the next colon and the text behind it; `none` when there is no colon. -/
 def upToColon (m : Msg) : Option (Msg × Msg) :=
-  match m.span (· != 58) with
-  | (a, _ :: rest) => some (a, rest)
-  | (_, []) => none
+  match m.dropWhile (· != 58) with
+  | _ :: rest => some (m.takeWhile (· != 58), rest)
+  | [] => none
 
 /-- A plain decimal number below 2^63. -/
 def natOf? (s : Msg) : Option Nat :=
